@@ -51,18 +51,18 @@ MCNext ==
   \/ \E x \in Active : Step(GiveUp(x))
   \/ \E x \in Active : \E r \in Replies :
         /\ Step(ApplyReply(x, r))
-        \* C17: identity changes only on a doubly signed migration order for this device (signed by the
-        \* GCA this round trusted when it began; with one round at a time that is the current GCA)
+        \* C17: identity changes only on a migration order for this device signed by the CURRENT GCA,
+        \* with every new server signed by the new GCA (also when rounds overlap)
         /\ Assert(cgca' # cgca =>
-                    r.mig.present /\ SValid(r.mig.sig, rnd[x].gca) /\
+                    r.mig.present /\ SValid(r.mig.sig, cgca) /\
                     \A i \in 1..Len(r.servers) : SValid(r.servers[i].sig, r.mig.newgca),
                   "MigrateOnlyIfDoublySigned")
-        /\ Assert(Conc = 1 => rnd[x].gca = cgca, "one round at a time trusts the current GCA")
-        \* C17: a server enters the list only with the GCA's signature
+        \* C17: a server enters the list only with the current GCA's signature
         /\ Assert(\A k \in DOMAIN csrv' \ DOMAIN csrv :
                     \E i \in 1..Len(r.servers) :
-                      r.servers[i].key = k /\ SValid(r.servers[i].sig, IF r.mig.present THEN r.mig.newgca ELSE rnd[x].gca),
+                      r.servers[i].key = k /\ SValid(r.servers[i].sig, IF r.mig.present /\ r.mig.newgca # cgca THEN r.mig.newgca ELSE cgca),
                   "ListOnlyBySignature")
+  \/ \E x \in Active : \E r \in Replies : Step(DiscardStale(x, r))
   \/ \E k \in Keys \cup {"zero", "s4", "n1", "n2"} : AllIdle /\ ClientReload(k) /\ UNCHANGED <<cvars, rounds>>
 MCSpec == MCInit /\ [][MCNext]_mvars
 
